@@ -341,8 +341,18 @@ func run(c *wk.Case) {
 		var text map[glyph.ID]string
 		if t.Chance(2, 3) {
 			text = map[glyph.ID]string{}
-			for i := t.Range(0, n); i > 0; i-- {
-				text[glyph.ID(t.Draw(n))] = []string{"A", "B", "fi", "é", "A", "Ж", ""}[t.Draw(7)]
+			// texts incl. ones whose derived name is too long to be valid
+			// (the glyph must then get a generic name) or has no name at all
+			texts := []string{"A", "B", "fi", "é", "A", "Ж", "一二三四五六七", "ffifflffifflffi", "\u00a0\u00a0", ""}
+			if t.Chance(1, 3) {
+				// every glyph has a text
+				for g := 0; g < n; g++ {
+					text[glyph.ID(g)] = texts[t.Draw(len(texts)-1)]
+				}
+			} else {
+				for i := t.Range(0, n); i > 0; i-- {
+					text[glyph.ID(t.Draw(n))] = texts[t.Draw(len(texts))]
+				}
 			}
 		}
 		var refSimple []string
